@@ -104,6 +104,7 @@ class Repo:
             for fn in sorted(filenames):
                 if fn.endswith(".py"):
                     paths.append(os.path.join(dirpath, fn))
+        parsed = []
         for path in sorted(paths):
             rel = os.path.relpath(path, root)
             with open(path, "rb") as f:
@@ -115,15 +116,23 @@ class Repo:
             src = raw.decode("utf-8")
             tree = ast.parse(src, filename=rel)
             modname = rel[:-3].replace(os.sep, ".")
-            if modname.endswith(".__init__"):
+            is_pkg = modname.endswith(".__init__")
+            if is_pkg:
                 modname = modname[: -len(".__init__")]
-            if self.known_functions is not None:
-                from . import inline
-                n, log, failed = inline.apply(tree, modname, self.known_functions)
+            parsed.append((rel, modname, is_pkg, src, tree))
+        if self.known_functions is not None:
+            from . import inline
+            foreign = {m: inline.new_top_level_functions(t, m, self.known_functions) for _, m, _, _, t in parsed}
+            foreign = {m: d for m, d in foreign.items() if d}
+            all_modules = {m for _, m, _, _, _ in parsed}
+            relpaths = {m: rel for rel, m, _, _, _ in parsed}
+            for rel, modname, is_pkg, src, tree in parsed:
+                n, log, failed = inline.apply(tree, modname, self.known_functions, foreign, is_pkg, all_modules, relpaths)
                 self.inline_log.extend(log)
                 self.inline_failed.extend(failed)
-                if n:
-                    _drop_fully_inlined(tree, modname, self.known_functions, self.inline_log)
+            for rel, modname, is_pkg, src, tree in parsed:
+                _drop_fully_inlined(tree, modname, self.known_functions, self.inline_log, [t for _, _, _, _, t in parsed])
+        for rel, modname, is_pkg, src, tree in parsed:
             _set_parents(tree)
             mod = Module(rel, modname, src, tree)
             self.modules[modname] = mod
@@ -205,14 +214,20 @@ class Repo:
         raise AnchorMissing("node without module")
 
 
-def _drop_fully_inlined(tree: ast.Module, modname: str, known, log: List[str]) -> None:
-    """Remove the definition of a new helper once no reference to it is left (every call site was expanded)."""
+def _drop_fully_inlined(tree: ast.Module, modname: str, known, log: List[str], all_trees=None) -> None:
+    """Remove the definition of a new helper once no reference to it is left in the package (every call site was expanded)."""
+    import itertools
+
     def refs(name: str, is_method: bool) -> int:
         n = 0
-        for x in ast.walk(tree):
+        for x in itertools.chain.from_iterable(ast.walk(t) for t in (all_trees or [tree])):
+            if isinstance(x, ast.alias) and x.name == name:
+                continue
+            if isinstance(x, (ast.FunctionDef, ast.AsyncFunctionDef)) and x.name == name:
+                continue
             if is_method and isinstance(x, ast.Attribute) and x.attr == name:
                 n += 1
-            if not is_method and isinstance(x, ast.Name) and x.id == name:
+            if not is_method and (isinstance(x, ast.Name) and x.id == name or isinstance(x, ast.Attribute) and x.attr == name):
                 n += 1
         return n
     for s in list(tree.body):
